@@ -137,6 +137,9 @@ func FromGo(v types.MalType) *Node {
 		return Op("fn")
 	case types.Func:
 		return Op("builtin")
+	case []byte:
+		// binary values (str2binary, unbase64): data like any other, compared by content
+		return Op("binary:" + string(t))
 	case error:
 		return &Node{K: Opaque, S: "error", X: t}
 	default:
